@@ -16,14 +16,14 @@ LEVEL = 'exploration'
 ENGINE = 'history'
 BUDGET = {'quick': 8000, 'thorough': 100000}
 WALL = {'quick': 45, 'thorough': 1500}
-RULE = ('one command per case (put, list, restore with every index, empty with/without DAYS and --dry-run, rm *) on a world where each '
+RULE = ('(in 35 % of the worlds the volume mounted at / has a .Trash of its own, in any of the states) one command per case (put, list, restore with every index, empty with/without DAYS and --dry-run, rm *) on a world where each '
         'volume has a generated .Trash state (sticky dir, non-sticky dir, symlink to sticky / non-sticky dir, regular file, dangling, '
         'absent) with a populated .Trash/$uid where the state allows, plus populated .Trash-$uid and home trash; non-trivial = some '
         'volume has an insecure .Trash with a populated $uid directory; in 12 % of the worlds with a sticky .Trash a multi-argument trash-put during '
         'which .Trash stops being secure between two arguments (an environment event at a prompt of -i: chmod, replaced by a symlink, removed; or '
         '.Trash itself given as an argument); distinct = (command, sorted .Trash states)')
 ASSUMPTIONS = []
-PROBES = ['insecure-populated', 'secure-used-by-list', 'secure-used-by-put', 'secure-used-by-restore', 'secure-purged', 'put-fell-through-to-alt',
+PROBES = ['root-volume-dot-Trash', 'insecure-populated', 'secure-used-by-list', 'secure-used-by-put', 'secure-used-by-restore', 'secure-purged', 'put-fell-through-to-alt',
           'list-reported-skip', 'cmd-trash-put', 'cmd-trash-list', 'cmd-trash-restore', 'cmd-trash-empty', 'cmd-trash-rm',
           'dot-Trash-becomes-insecure-between-arguments', 'later-argument-trashed']
 TECHNIQUE = 'deterministic simulation of all five commands over the lattice of .Trash states; frame oracle on $topdir/.Trash/$uid plus output checks'
@@ -57,6 +57,33 @@ def gen(rng):
             loc = L['work'][v] + '/alt%d' % k
             G.add_trashed(steps, v + '/.Trash-%d' % uid, 'alt%d' % k, TG.pct(loc[len(v) + 1:]), '2020-03-01T01:02:03', 'file', tag='a%d' % k)
         steps.append(['f', L['work'][v] + '/victim', 'to be trashed', 0o644])
+    rootvictim = None
+    if rng.random() < 0.35:
+        # the volume mounted at / has a shared .Trash of its own (the rules are the same there)
+        rs = rng.choice([x for x in STATES if x != 'absent'])
+        t0 = '/.Trash'
+        if rs == 'sticky':
+            steps.append(['d', t0, 0o1777])
+        elif rs == 'nonsticky':
+            steps.append(['d', t0, 0o777])
+        elif rs == 'nonsticky_sgid':
+            steps.append(['d', t0, 0o2775])
+        elif rs == 'nonsticky_suid':
+            steps.append(['d', t0, 0o4755])
+        elif rs in ('link_sticky', 'link_nonsticky'):
+            steps.append(['d', '/.realTrash', 0o1777 if rs == 'link_sticky' else 0o777])
+            steps.append(['l', t0, '.realTrash'])
+        elif rs == 'file':
+            steps.append(['f', t0, 'not a dir', 0o644])
+        elif rs == 'dangling':
+            steps.append(['l', t0, 'nothing-here'])
+        if rs in ('sticky', 'nonsticky', 'nonsticky_sgid', 'nonsticky_suid', 'link_sticky', 'link_nonsticky'):
+            for j in range(rng.randint(1, 2)):
+                k += 1
+                G.add_trashed(steps, '/.Trash/%d' % uid, 'rootshared%d' % k, TG.pct('srv/rootshared%d' % k), '2020-05-0%dT01:02:03' % (k % 9 + 1),
+                              rng.choice(['file', 'dir']), tag='r%d' % k)
+        steps.append(['f', '/srv/victim', 'to be trashed from the root volume', 0o644])
+        rootvictim = '/srv/victim'
     G.add_trashed(steps, G.home_trash_of(L['env']), 'homeent', TG.pct(home + '/w/homeent'), '2020-04-01T01:02:03', 'file', tag='h')
     cmd = rng.choice(['trash-put', 'trash-list', 'trash-restore', 'trash-restore', 'trash-empty', 'trash-empty', 'trash-rm'])
     stdin = ''
@@ -81,7 +108,7 @@ def gen(rng):
             'midrun': {'how': how, 'volume': v, 'before_prompt': rng.choice([2, 2, 3])},
         }
     if cmd == 'trash-put':
-        argv = [cmd] + rng.choice([[], ['-v']]) + [L['work'][rng.choice(L['vols'])] + '/victim']
+        argv = [cmd] + rng.choice([[], ['-v']]) + [rng.choice([L['work'][v_] + '/victim' for v_ in L['vols']] + ([rootvictim] * 2 if rootvictim else []))]
     elif cmd == 'trash-list':
         argv = [cmd]
     elif cmd == 'trash-restore':
@@ -212,6 +239,8 @@ def check(sim, case, st):
     st.probes['cmd-' + cmd] += 1
     res = []
     states = tuple(sorted(MB.top_state(snap0, m) for m in mounts if m != '/'))
+    if '/.Trash' in snap0:
+        st.probes['root-volume-dot-Trash'] += 1
     if insecure:
         st.probes['insecure-populated'] += 1
         st.distinct.add((cmd, tuple(a for a in argv[1:] if a.startswith('-') or a.isdigit()), tuple(sorted(s for _m, s, _r, _t in insecure))))
